@@ -131,8 +131,10 @@ def audit_axioms(module, names, workdir):
 def run_stream(binpath, model_exe, mode_args, workdir, timeout=3600):
     """Run Go driver (gen or exec), then the Lean model on the same ops; return diff info."""
     os.makedirs(workdir, exist_ok=True)
+    known = load_known()
+    sigs = ",".join(sorted({f["sig"] for f in known.get("findings", [])}))
     rc, log = sh([binpath] + mode_args + ["-dir", workdir], cwd=VERIF,
-                 env=dict(os.environ, GOMEMLIMIT="8GiB"), timeout=timeout)
+                 env=dict(os.environ, GOMEMLIMIT="8GiB", VERIF_KNOWN_SIGS=sigs), timeout=timeout)
     res = {"go_rc": rc, "go_log": log[-4000:], "dir": workdir}
     if rc != 0 or not os.path.exists(os.path.join(workdir, "stats.json")):
         res["crash"] = True
